@@ -247,6 +247,13 @@ pub fn oracle(id: &str, c: &Case, profile: &Profile, samples: &Samples) -> Verdi
             ));
             Verdict::pass_l(true, labels.iter().map(|s| intern(s)).collect())
         }
+        Reply::NoWorker(e) => {
+            let mut h = worker::HANGS.lock().unwrap();
+            if h.len() < 3 {
+                h.push(format!("cannot start a worker process: {e}"));
+            }
+            Verdict::pass_l(false, vec![intern("infrastructure:no-worker(inconclusive)")])
+        }
         Reply::Hung { phase, cpu_s, spinning } => {
             let p = worker::save_hang(id, l.fmt, &l.bytes, &phase);
             worker::HANGS.lock().unwrap().push(format!(
